@@ -372,6 +372,9 @@ def gen_doc(r, wrap=None):
             nxt = segs[i + 1][0]
             if (s.endswith("$") and nxt.startswith("{")) or (s.endswith("<") and nxt.startswith(("%", "/%"))) or (s.endswith("</") and nxt.startswith("%")) or (s.endswith("\\") and nxt.startswith(("\n", "\r\n"))) or (s.endswith("\\\r") and nxt.startswith("\n")):
                 s = e = s + SAFE_FILL
+            elif nxt.startswith("#") and re.match(r"^[ \t]*#$", s.rsplit("\n", 1)[-1]) and ("\n" in s or i == 0 or segs[i - 1][0].endswith("\n")):
+                # a lone '#' opening a line, completed to a '##' comment by the next segment
+                s = e = s + SAFE_FILL
         if kd == "literal" and src_parts and segs[i - 1][2] != "literal":
             # a literal after a mid-line directive is mid-line; after a line-consuming one it is at line start
             pass
